@@ -430,6 +430,7 @@ fn main() {
             procsuite::suite_overmount(&mut ctx, &masks, args.iter().any(|a| a == "--faults"))
         }
         "proc-racemount" => procsuite::suite_racemount(&mut ctx),
+        "reopen-overmount" => procsuite::suite_reopen_overmount(&mut ctx),
         "proc-matrix" => {
             let label = arg_val(&args, "--label").unwrap_or_else(|| "default".into());
             procsuite::suite_c08(&mut ctx, &label)
